@@ -1116,6 +1116,54 @@ def renest_helpers(ctx, nf, depth=2):
     return out
 
 
+def genexp_loops(node):
+    """`sel = (x for x in S if C)` ... `for x in sel: BODY`  ->  `for x in S: if C: BODY`   (in place; parent links must be set and are
+    left stale).  The generator expression is bound once and used once, as the iterable of a loop that follows it in the same block;
+    it has one `for` clause.  The loop then runs the same tests and the same body in the same order."""
+    binds, loads = {}, {}
+    for n in own_nodes(node):
+        if isinstance(n, ast.Name):
+            (binds if isinstance(n.ctx, ast.Store) else loads).setdefault(n.id, []).append(n)
+    done = False
+    for lp in [n for n in own_nodes(node) if isinstance(n, ast.For)]:
+        it = lp.iter
+        assign = None
+        if isinstance(it, ast.Name) and len(binds.get(it.id, [])) == 1 and len(loads.get(it.id, [])) == 1:
+            a = getattr(binds[it.id][0], '_parent', None)
+            if isinstance(a, ast.Assign) and a.targets == [binds[it.id][0]] and isinstance(a.value, ast.GeneratorExp):
+                par = getattr(a, '_parent', None)
+                blk = None
+                for fld in ('body', 'orelse', 'finalbody'):
+                    b = getattr(par, fld, None)
+                    if isinstance(b, list) and any(a is x for x in b) and any(lp is x for x in b):
+                        blk = b
+                if blk is not None and [i for i, x in enumerate(blk) if x is a][0] < [i for i, x in enumerate(blk) if x is lp][0]:
+                    assign, it = (a, blk), a.value
+        if not isinstance(it, ast.GeneratorExp) or len(it.generators) != 1 or it.generators[0].is_async:
+            continue
+        g = it.generators[0]
+        body = list(lp.body)
+        if not (isinstance(it.elt, ast.Name) and isinstance(g.target, ast.Name) and isinstance(lp.target, ast.Name)
+                and it.elt.id == g.target.id):
+            body = [ast.Assign(targets=[lp.target], value=it.elt)] + body
+            new_target = g.target
+        else:
+            new_target = ast.Name(id=lp.target.id, ctx=ast.Store())
+            if lp.target.id != g.target.id:
+                # the clause variable is read as the loop variable
+                class R(ast.NodeTransformer):
+                    def visit_Name(self, n, a_=g.target.id, b_=lp.target.id):
+                        return ast.copy_location(ast.Name(id=b_, ctx=n.ctx), n) if n.id == a_ else n
+                g = ast.comprehension(target=new_target, iter=g.iter, ifs=[R().visit(c) for c in g.ifs], is_async=0)
+        for cond in reversed(g.ifs):
+            body = [ast.If(test=cond, body=body, orelse=[])]
+        lp.target, lp.iter, lp.body = new_target, g.iter, body
+        if assign is not None:
+            assign[1][:] = [x for x in assign[1] if x is not assign[0]]
+        done = True
+    return done
+
+
 def normalized(ctx, fi, depth=2, do_canon=True, keep=()):
     """A FuncInfo whose node is a normalised deep copy of fi.node (helpers inlined, canonical spellings)."""
     cache = ctx.__dict__.setdefault('_norm_cache', {})
@@ -1150,6 +1198,9 @@ def normalized(ctx, fi, depth=2, do_canon=True, keep=()):
     ast.fix_missing_locations(node)
     set_parents(node)
     if sentinel_pulls(fi, node):
+        ast.fix_missing_locations(node)
+        set_parents(node)
+    if genexp_loops(node):
         ast.fix_missing_locations(node)
         set_parents(node)
     node._parent = getattr(fi.node, '_parent', None)
